@@ -32,7 +32,7 @@ var propPost = map[string]func(res *RunResult){}
 
 func cmdRun(args []string) int {
 	if len(args) < 2 {
-		fmt.Fprintln(os.Stderr, "usage: harness run <Cxx> <quick|thorough> [out.json]")
+		fmt.Fprintln(realStderr, "usage: harness run <Cxx> <quick|thorough> [out.json]")
 		return 2
 	}
 	prop, tier := args[0], args[1]
@@ -42,7 +42,7 @@ func cmdRun(args []string) int {
 	}
 	gen, ok := propGens[prop]
 	if !ok {
-		fmt.Fprintln(os.Stderr, "no generator for", prop)
+		fmt.Fprintln(realStderr, "no generator for", prop)
 		return 2
 	}
 	seed := seedFromEnv()
@@ -78,7 +78,7 @@ func cmdRun(args []string) int {
 	os.MkdirAll(filepath.Dir(out), 0o755)
 	js, _ := json.MarshalIndent(res, "", " ")
 	if err := os.WriteFile(out, js, 0o644); err != nil {
-		fmt.Fprintln(os.Stderr, err)
+		fmt.Fprintln(realStderr, err)
 		return 2
 	}
 	fmt.Printf("run %s %s: evaluations=%d distinct=%d mismatches=%d hangs=%d wall=%.1fs\n", prop, tier,
